@@ -116,6 +116,9 @@ def rad50(state, string: str) -> bytes:
             string = get_as_str(state, "'.rad50' operand", state["insn"], chunk)
             for char in string:
                 try:
+                    if len(char.upper()) != 1:
+                        # E.g. a ligature whose uppercase form is a substring of the table
+                        raise ValueError(char)
                     val = radix50.TABLE.index(char.upper())
                 except ValueError:
                     reports.error(
